@@ -365,6 +365,11 @@ func (vm *progVM) step() *progStep {
 			fl = math.Copysign(0, float64(1-2*r.Intn(2)))
 		case 2:
 			fl = float64(int64(r.U64()>>40)) / 1024
+		case 3: // integers in [2^52, 2^53): the 53-bit mantissa needs no binary scaling at all
+			fl = float64(uint64(1)<<52 + r.U64()%(1<<52))
+			if r.Bool() {
+				fl = -fl
+			}
 		}
 		if math.IsNaN(fl) {
 			fl = 1.5
